@@ -108,17 +108,19 @@ pub fn build_zipoffset(cfg: &ZipOffsetBlobStoreConfig, cfgname: &str, recs: &[Ve
 
 pub fn build_zipoffset_batch(cfg: &ZipOffsetBlobStoreConfig, cfgname: &str, bsz: usize, recs: &[Vec<u8>], plan: u64) -> Result<Result<ZipOffsetBlobStore, String>, String> {
     let mut pr = Rng::new(plan ^ 0xBA7);
+    BATCH_OPS.with(|o| o.borrow_mut().clear());
     let mut b = if cfgname == "default" && plan % 2 == 1 { BatchZipOffsetBlobStoreBuilder::new(bsz) } else { BatchZipOffsetBlobStoreBuilder::with_config(cfg.clone(), bsz) }
         .map_err(|e| format!("builder construction failed: {}", e))?;
     for (i, d) in recs.iter().enumerate() {
         if plan != 0 {
             match pr.below(8) {
-                0 => if let Err(e) = b.flush_batch() { return Ok(Err(e.to_string())); },
+                0 => { if let Err(e) = b.flush_batch() { return Ok(Err(e.to_string())); } BATCH_OPS.with(|o| o.borrow_mut().push(None)); }
                 1 => if b.len() != i || b.is_empty() != (i == 0) { return Err(format!("batch builder reports len {} / is_empty {} after {} records", b.len(), b.is_empty(), i)); },
                 2 => { let _ = b.stats().record_count; }
                 _ => {}
             }
         }
+        BATCH_OPS.with(|o| o.borrow_mut().push(Some(i)));
         match b.add_record(d) {
             Ok(id) => if id as usize != i { return Err(format!("batch add_record #{} returned id {}", i, id)); },
             // a flush inside add_record hits the same capacity limits as finish()
@@ -225,6 +227,41 @@ pub fn simplezip_config_via_builder(min: usize, max: usize, delims: &[u8]) -> Re
     Ok(c)
 }
 
+
+thread_local! {
+    /// a Coq case a build helper wants evaluated (taken by run_build after the helper returns)
+    pub static COQ_OUT: std::cell::RefCell<Option<String>> = std::cell::RefCell::new(None);
+    /// the calls the batch-builder helper made before finish(): Some(i) = add_record(record i), None = flush_batch()
+    pub static BATCH_OPS: std::cell::RefCell<Vec<Option<usize>>> = std::cell::RefCell::new(Vec::new());
+}
+
+fn coq_obs_b(r: Option<&[u8]>) -> String { match r { Some(d) => { let mut v = vec!["1".to_string(), d.len().to_string()]; v.extend(d.iter().map(|x| x.to_string())); format!("[{}]%N", v.join(";")) } None => "[0]%N".into() } }
+
+/// The finished trie store against the Coq model of the builder (ModelNltb.v): entries as added, whether the builder sorts,
+/// and what the real store answers by key (every key added, two keys never added), by id (0..n+1) and for len().
+pub fn nltb_coq_case(sorted: bool, keys: &[Vec<u8>], recs: &[Vec<u8>], s: &mut Nt) -> Option<String> {
+    if recs.len() > 70 || recs.iter().map(|d| d.len() + 8).sum::<usize>() > 1500 { return None; }
+    let entries: Vec<String> = keys.iter().zip(recs.iter()).map(|(k, d)| format!("({}, {})", coq_bytes(k), coq_bytes(d))).collect();
+    let mut qs: Vec<Vec<u8>> = vec![];
+    for k in keys { if !qs.contains(k) { qs.push(k.clone()); } }
+    qs.push(b"never-added".to_vec()); qs.push(vec![0xff, 0xfe]);
+    if let Some(k) = keys.first() { let mut k2 = k.clone(); k2.push(b'x'); if !keys.contains(&k2) { qs.push(k2); } }
+    let mut kexp: Vec<String> = vec![];
+    for k in &qs {
+        let r = s.get_by_key(k).ok();
+        // contains_key is part of the case through the observation: present exactly when get_by_key answers
+        if s.contains_key(k) != r.is_some() { return None; }
+        kexp.push(format!("({}, {})", coq_bytes(k), coq_obs_b(r.as_deref())));
+    }
+    let mut iexp: Vec<String> = vec![];
+    for i in 0..recs.len() + 2 {
+        let r = s.get(i as RecordId).ok();
+        if s.contains(i as RecordId) != r.is_some() { return None; }
+        iexp.push(coq_obs_b(r.as_deref()));
+    }
+    Some(format!("XNltb {} [{}] [{}] [{}] {}", sorted, entries.join("; "), kexp.join("; "), iexp.join("; "), s.len()))
+}
+
 fn trie_cfg(name: &str) -> TrieBlobStoreConfig {
     match name { "perf" => TrieBlobStoreConfig::performance_optimized(), "mem" => TrieBlobStoreConfig::memory_optimized(), "sec" => TrieBlobStoreConfig::security_optimized(), _ => TrieBlobStoreConfig::default() }
 }
@@ -281,6 +318,7 @@ pub fn nlt_builder_variant(cfgname: &str, recs: &[Vec<u8>], plan: u64) -> Option
     }
     let mut ids: Vec<RecordId> = s.iter_ids().collect(); ids.sort();
     if ids != (0..recs.len() as u32).collect::<Vec<_>>() { return Some(format!("iter_ids of the finished store lists {} ids", ids.len())); }
+    COQ_OUT.with(|c| *c.borrow_mut() = nltb_coq_case(sorted_by_builder, &keys, recs, &mut s));
     // read-only now: writes may be refused, nothing changes
     let _ = s.put(b"late"); let _ = s.put_with_key(b"late-key", b"late"); let _ = s.remove(0); let _ = s.finalize();
     let mut shadow: HashMap<RecordId, Vec<u8>> = HashMap::new();
